@@ -1,6 +1,7 @@
 import Walrus.Proofs.Body
 import Walrus.Proofs.ParseTree
 import Walrus.Proofs.ParseView
+import Walrus.Proofs.RoundTripBody
 import Walrus.Code
 
 /-!
@@ -192,6 +193,31 @@ theorem body_round_trip_is_flatten_of_source_tree (m : IdMaps) (e : PEnv) (entry
   subst ht'
   exact ⟨seqs, hb, emitted_body_is_flatten m seqs 0 _ t hg hv ops hf⟩
 
+/-- **the body round trip in source terms**: for every well-nested body that parses, what
+    `emit ∘ parse` writes is `outL` of the *source tree* — the operators that are neither `nop` nor
+    behind an unconditional transfer, in order, each with its name and immediates, entity operands
+    through the parse-time and the emit-time map (`outArgs`), branches with the depths they had,
+    block types in normal form (`outBt`), an `else` for every `if`, and the closing `end` -/
+theorem body_round_trip_in_source_terms (m : IdMaps) (e : PEnv) (entryTy : Nat) (body : PL)
+    (hw : body.WF) (endLoc : Nat) (is : List (BInstr × Nat)) (cs : List PSeq) (u : Bool)
+    (h : expL e [0] 1 false body = some (is, cs, u))
+    (ops : List (Nat × Op)) (u' : Bool) (ho : outL e m false body = some (ops, u')) :
+    ∃ seqs, buildBody e entryTy (body.flat ++ [(opEnd, endLoc)]) = some seqs ∧
+      ∃ n, ∀ fuel, n ≤ fuel → (emitBodyFuel m (PSeqs.toArena seqs) fuel 0).map (·.1) =
+        some (ops.map (·.2) ++ [⟨"End", []⟩]) := by
+  obtain ⟨t, ht, _, _⟩ := view_L e body [0] 1 false is cs u h
+  have hr := (round_L e m body [0] 1 false is cs u t h ht (by simp) (by simp)).1
+  rw [ho] at hr
+  exact body_round_trip_is_flatten_of_source_tree m e entryTy body hw endLoc is cs u h t ht ops hr
+
+/-- dead code and `nop`s contribute nothing to the output; a plain operator contributes itself -/
+theorem out_of_nop (e : PEnv) (m : IdMaps) (o : Op) (loc : Nat) (hn : o.name = "Nop") :
+    outI e m false (.op o loc) = some ([], false) := by
+  simp [outI, outLeaf, transfers, hn]
+
+theorem out_of_dead (e : PEnv) (m : IdMaps) (i : PI) : outI e m true i = some ([], true) := by
+  cases i <;> simp [outI]
+
 -- non-vacuity: a body with a nop, a branch out of a block followed by dead code containing a block
 def sampleBody : PL :=
   .cons (.op ⟨"Nop", []⟩ 1)
@@ -204,6 +230,9 @@ def sampleEnv : PEnv := ⟨[], [], [], []⟩
 example : (expL sampleEnv [0] 1 false sampleBody).map (fun r => (r.1, r.2.1.map (·.instrs), r.2.2)) =
     some ([(.block 1, 2), (.leaf ⟨"I32Const", [.num 1]⟩, 9)],
           [[(.br 1, 3)], [(.leaf ⟨"I32Const", [.num 7]⟩, 5)]], false) := by decide
+
+example : (outL sampleEnv { identity := ["f", "t", "g", "m", "y", "d", "e", "x"] } false sampleBody).map (fun r => r.1.map (·.2)) =
+    some [⟨"Block", [.bt .empty]⟩, ⟨"Br", [.ref "l" 0]⟩, ⟨"End", []⟩, ⟨"I32Const", [.num 1]⟩] := by decide
 
 end C03
 end Walrus
